@@ -19,13 +19,16 @@ def run(rep, tier, rng, replay=None):
         return
     res = tot.explore(rep, tier, rng, replay)
     muts = res["muts"]
-    n_pan = n_corr = n_prof = n_skip = n_model = 0
+    n_pan = n_corr = n_prof = n_skip = n_model = n_hang = 0
     kinds, classes, entries = {}, {}, {}
     for i, m in enumerate(muts):
         kinds[m["kind"]] = kinds.get(m["kind"], 0) + 1
         rep.distinct((m["kind"], m["base"], tot.gen.fnv_hex(m["phys"])))
         td, tr = res["tot"]["debug"][i], res["tot"]["release"][i]
         rep.count(2)
+        if td.get("hang") or tr.get("hang"):
+            n_hang += 1         # a call that does not return is C09's finding (c09-call-does-not-return); nothing to compare here
+            continue
         bad = None
         for prof, t in (("debug", td), ("release", tr)):
             if t["crash"]:
@@ -71,6 +74,9 @@ def run(rep, tier, rng, replay=None):
         rep.count(2)
         od, orl, om = fr["out"]["debug"][i], fr["out"]["release"][i], fr["model"][i]
         rep.distinct(("free", line[-120:]))
+        if od.startswith("HANG") or orl.startswith("HANG"):
+            n_hang += 1
+            continue
         if any(o.startswith("CRASH") or " # PANICS " in o or re.search(r"[: ]P( |$)", o) for o in (od, orl)):
             n_pan += 1
             rep.violation("c08-panic", "panic with a descriptor given through the API (%s): %s" % (fr["notes"][i], (od + " || " + orl)[-300:]),
@@ -108,7 +114,7 @@ def run(rep, tier, rng, replay=None):
     rep.cov.update(mutants=len(muts), mutation_kinds=kinds, base_files=[dict(name=b.name, bytes=len(b.phys), origin=b.origin, point_clouds=len(b.cv), blobs=len(b.blobs)) for b in res["bases"]],
                    simple_iterator_option_vectors=res["masks"], free_descriptor_cases=n_free, large_bundled_files=[m["base"] for m in res["big"]["muts"]],
                    result_classes=dict(sorted(classes.items(), key=lambda kv: -kv[1])[:40]), panicking_inputs=n_pan, panic_entry_points=entries,
-                   debug_release_differences=n_prof, xml_layer_compared_with_full_reader_model=xml_cmp, model_runs=n_model, xml_layer_not_modelled=n_skip, correspondence_failures=n_corr,
+                   debug_release_differences=n_prof, calls_that_did_not_return_left_to_C09=n_hang, xml_layer_compared_with_full_reader_model=xml_cmp, model_runs=n_model, xml_layer_not_modelled=n_skip, correspondence_failures=n_corr,
                    traces_validated_against_impl=n_model + n_free)
     if muts:
         k = len(muts) // 2
